@@ -155,6 +155,10 @@ func (s *scriptedServer) handle(conn net.Conn) {
 	case "SHORT":
 		fmt.Fprintf(conn, "HTTP/1.1 200 OK\r\nContent-Length: %d\r\nConnection: close\r\n\r\n", len(s.body200)+100)
 		conn.Write(s.body200[:len(s.body200)/2])
+	case "STALL":
+		// no answer at all: hold the connection until the client gives up on this attempt (its per-request timeout)
+		conn.SetReadDeadline(time.Now().Add(20 * time.Second))
+		io.Copy(io.Discard, conn)
 	}
 }
 
@@ -164,7 +168,9 @@ func (s *scriptedServer) count() int {
 	return s.n
 }
 
-func transient(el string) bool { return el == "500" || el == "503" || el == "RST" || el == "SHORT" }
+func transient(el string) bool {
+	return el == "500" || el == "503" || el == "RST" || el == "SHORT" || el == "STALL"
+}
 
 func scripted(c *harness.Ctx) {
 	rng := c.Rng
@@ -180,6 +186,19 @@ func scripted(c *harness.Ctx) {
 			el = "503"
 		}
 		script = append(script, el)
+	}
+	// an attempt that gets no answer within the store's timeout is one more transient failure: the next attempt has
+	// its own full timeout (at most two stalls per script, the timeout is one second)
+	stalls := 0
+	if n > 0 && rng.Intn(12) == 0 {
+		for k := 0; k < 1+rng.Intn(2); k++ {
+			script[rng.Intn(len(script))] = "STALL"
+		}
+		for _, el := range script {
+			if el == "STALL" {
+				stalls++
+			}
+		}
 	}
 	data := dsu.MakeBlob(rng, "random", 200+rng.Intn(3000), dsu.Sizes{Min: 64, Avg: 128, Max: 256})
 	id := dsu.Sum(data)
@@ -199,6 +218,10 @@ func scripted(c *harness.Ctx) {
 	defer srv.l.Close()
 	u, _ := url.Parse("http://" + srv.l.Addr().String() + "/")
 	opt := desync.StoreOptions{ErrorRetry: retry, ErrorRetryBaseInterval: time.Millisecond, Uncompressed: uncompressed, N: 1}
+	if stalls > 0 {
+		opt.Timeout = time.Second
+		c.Count("scripts_with_stalled_attempts", 1)
+	}
 
 	// expected outcome from the script alone
 	budget := retry
@@ -641,7 +664,16 @@ func sshSession(c *harness.Ctx) {
 	var ids []desync.ChunkID
 	plain := map[desync.ChunkID][]byte{}
 	for k := 0; k < 4; k++ {
-		b := dsu.MakeBlob(rng, "random", 100+rng.Intn(5000), dsu.Sizes{Min: 64, Avg: 128, Max: 256})
+		// small chunks, and incompressible ones of 64 KiB, of the default maximum (256 KiB: their compressed form is
+		// larger than that) and of several MiB (indexes made with larger chunk sizes)
+		size := 100 + rng.Intn(5000)
+		switch k {
+		case 1:
+			size = []int{64 << 10, 256 << 10, 256<<10 - 1}[rng.Intn(3)]
+		case 2:
+			size = []int{256 << 10, 1 << 20, 3<<20 + 17}[rng.Intn(3)]
+		}
+		b := dsu.MakeBlob(rng, "random", size, dsu.Sizes{Min: 64, Avg: 128, Max: 256})
 		id := dsu.Sum(b)
 		ids = append(ids, id)
 		plain[id] = b
